@@ -140,7 +140,10 @@ def realise(arr, model, fd, spatial_axes):
 class JetRun:
     """One symbolic execution of AurelCore on jets + everything needed to replay it."""
 
-    def __init__(self, dim, inputs, pre, kwargs=None, attrs=None, fdkind='jet', coords=None):
+    def __init__(self, dim, inputs, pre, kwargs=None, attrs=None, fdkind='jet', coords=None,
+                 resolutions=None, fd_order=8):
+        self.resolutions = resolutions
+        self.fd_order = fd_order
         self.dim = dim
         self.inputs = inputs            # {key: object array (...,1,1,1)}
         self.pre = list(pre)
@@ -169,9 +172,9 @@ class JetRun:
         rel.freeze_data()
         return rel
 
-    def float_rel(self, model, N=13, h=0.05, fd_order=8):
+    def float_rel(self, model, N=13, h=0.05, fd_order=None):
         from aurel.core import AurelCore
-        fd = grid_fd(N, h, fd_order)
+        fd = grid_fd(N, h, fd_order or self.fd_order)
 
         def num(x):
             if isinstance(x, SymReal):
@@ -202,9 +205,10 @@ def center(a):
 _REL_CACHE = {}
 
 
-def replay_jet(run, ob, model, resolutions=((13, 0.02), (13, 0.01)), rtol=1e-6):
+def replay_jet(run, ob, model, resolutions=None, rtol=1e-6):
     """Run the real code with floats at two resolutions; the mismatch with the oracle value must
     stay above tolerance and must not shrink like a discretisation error."""
+    resolutions = resolutions or getattr(run, 'resolutions', None) or ((13, 0.02), (13, 0.01))
     oracle_v = float(eval_terms([ob.oracle], model)[0])
     impl_dag = float(eval_terms([ob.impl], model)[0])
     diffs = []
@@ -388,6 +392,8 @@ class Report:
             inconclusive=[list(x) for x in self.inconclusive],
             notes=self.notes,
             exhaustive=False,
+            decided_syntactically=sum(1 for o in self.obs if o['trivial']),
+            decided_by_solver=sum(1 for o in self.obs if not o['trivial']),
         )
         cov.update(self.extra)
         ev = dict(property_id=self.pid, tier=self.tier, seed=int(self.seed), level=level,
